@@ -109,6 +109,33 @@ func (t *tr) expr(e ast.Expr) (string, error) {
 		}
 		return "", t.errf(e, "unary %v", x.Op)
 	case *ast.BinaryExpr:
+		// strings.Index(s, sub) / strings.IndexByte(s, c) / strings.IndexRune(s, r) compared with 0 or -1 is a containment test
+		if ce, ok := x.X.(*ast.CallExpr); ok {
+			fn := exprString(ce.Fun)
+			if (fn == "strings.Index" || fn == "strings.IndexByte" || fn == "strings.IndexRune") && len(ce.Args) == 2 {
+				rhs := strings.ReplaceAll(exprString(x.Y), " ", "")
+				pos := (x.Op == token.GEQ && rhs == "0") || (x.Op == token.GTR && rhs == "-1") || (x.Op == token.NEQ && rhs == "-1")
+				neg := (x.Op == token.LSS && rhs == "0") || (x.Op == token.EQL && rhs == "-1") || (x.Op == token.LEQ && rhs == "-1")
+				if pos || neg {
+					s0, err := t.expr(ce.Args[0])
+					if err != nil {
+						return "", err
+					}
+					s1, err := t.expr(ce.Args[1])
+					if err != nil {
+						return "", err
+					}
+					c := "(Go.contains " + s0 + " " + s1 + ")"
+					if fn != "strings.Index" {
+						c = "(Go.containsChar " + s0 + " " + s1 + ")"
+					}
+					if neg {
+						c = "(!" + c + ")"
+					}
+					return c, nil
+				}
+			}
+		}
 		a, err := t.expr(x.X)
 		if err != nil {
 			return "", err
